@@ -283,6 +283,22 @@ def check(recipe) -> list[Fail]:
         elif route in ("concat", "or"):
             other, _ = build("Structure", recipe["mol2"])
             cp = ml.Structure.concatenate(src, other) if route == "concat" else (src | other)
+        elif route == "join":
+            # both fragments get a well-spread geometry and one attachment point on their first atom
+            other, _ = build("Structure", recipe["mol2"])
+            if src.n_atoms == 0 or other.n_atoms == 0:
+                return []
+            from molli.chem import Atom, AtomType
+
+            aps = []
+            for frag, sgn in ((src, 1.0), (other, -1.0)):
+                frag.coords = np.array([[1.3 * i, 0.7 * (i % 3), 0.9 * (i % 2)] for i in range(frag.n_atoms)], dtype=float)
+                ap = Atom(element=0, atype=AtomType.AttachmentPoint, label="AP")
+                frag.add_atom(ap, [-0.8 * sgn, -0.6 * sgn, -0.5])
+                frag.connect(frag.atoms[0], ap)
+                aps.append(ap)
+            snap_src = chem.snapshot(src)
+            cp = _cls(src_cls).join(src, other, aps[0], aps[1], optimize_rotation=bool(len(recipe["mut"]) % 2))
         else:
             raise HarnessError("bad route")
     except HarnessError:
@@ -302,6 +318,29 @@ def check(recipe) -> list[Fail]:
         d = chem.snap_diff({"atoms": exp_atoms, "bonds": exp_bonds, "coords": np.vstack([snap_src["coords"], snap_o["coords"]]), "charge": snap_src["charge"] + snap_o["charge"]}, sc)
         if d:
             fails.append(Fail(f"unfaithful:{tag}:{d.split(':')[0].split('[')[0]}", d))
+    elif route == "join":
+        # every atom and bond of both fragments except the attachment points, with every field; one new bond
+        def afield(a):
+            return (int(a.element), a.isotope, a.label, int(a.atype), int(a.stereo), int(a.geom), a.formal_charge, a.formal_spin, repr(chem.norm_attr(a.attrib)))
+
+        def bfield(b):
+            return (tuple(sorted([afield(b.a1), afield(b.a2)], key=repr)), b.label, int(b.btype), int(b.stereo), float(b.f_order), repr(chem.norm_attr(b.attrib)))
+
+        exp_a = sorted((afield(a) for frag, ap in ((src, aps[0]), (other, aps[1])) for a in frag.atoms if a is not ap), key=repr)
+        exp_b = sorted((bfield(b) for frag, ap in ((src, aps[0]), (other, aps[1])) for b in frag.bonds if ap not in b), key=repr)
+        got_a = sorted((afield(a) for a in cp.atoms), key=repr)
+        got_b = sorted((bfield(b) for b in cp.bonds), key=repr)
+        if got_a != exp_a:
+            fails.append(Fail("unfaithful:join:atoms", f"{who}{[x for x in exp_a if x not in got_a][:2]} missing / {[x for x in got_a if x not in exp_a][:2]} unexpected"))
+        left = list(got_b)
+        for x in exp_b:
+            if x in left:
+                left.remove(x)
+            else:
+                fails.append(Fail("unfaithful:join:bonds", f"{who}bond {x} of a fragment is not in the product with the same fields"))
+                break
+        if not fails and len(left) != 1:
+            fails.append(Fail("unfaithful:join:bonds", f"{who}{len(left)} bonds besides the fragments' own (expected the one new bond)"))
     else:
         sc = chem.snapshot(cp)
         fields = expected_image(snap_src, src_cls, route, dst_cls)
@@ -430,6 +469,8 @@ def strat(tier):
             rs += ["ctor:Molecule"] * 3 + ["ctor:Structure"]
         if src_cls in ("Structure", "Molecule", "Conformer"):
             rs += ["concat", "or"]
+        if src_cls in ("Structure", "Molecule"):
+            rs += ["join", "join"]
         if src_cls in ("CartesianGeometry", "Structure", "Molecule", "ConformerEnsemble", "Conformer"):
             rs += ["ctor+arrays", "ctor+assign"]
         return rs
@@ -451,6 +492,6 @@ def strat(tier):
 LEGS = [
     Leg("copy", check, classify, strategy=strat, n={"quick": 3000, "thorough": 40000}, shards={"quick": 16, "thorough": 32},
         rule="source generated (<=8 atoms, nested mutable attributes, __implicit_hydrogens hints, partial charges, 0-3 conformers) and realised as one of 7 classes; "
-             "route in {copy constructor (same / wider / narrower class), pickle, deepcopy, concatenate, |}; 1-5 mutations (fields, attrib depth 1/2, in-place arrays, add/del atoms and bonds, "
+             "route in {copy constructor (same / wider / narrower class), pickle, deepcopy, concatenate, |, join at attachment points}; 1-5 mutations (fields, attrib depth 1/2, in-place arrays, add/del atoms and bonds, "
              "add_implicit_hydrogens, scale, translate) applied to the copy or to the source; non-trivial = >=1 atom, a non-empty attrib or non-zero partial charge, >=1 mutation"),
 ]
